@@ -83,34 +83,19 @@ where
 }
 
 impl Inflection {
-    pub fn apply(self, string: &str) -> String {
+    /// Applies the inflection to the name of a struct field, exactly like serde's
+    /// `rename_all` does: fields are assumed to be written in `snake_case`.
+    pub fn apply_to_field(self, field: &str) -> String {
         match self {
-            Inflection::Lower => string.to_lowercase(),
-            Inflection::Upper => string.to_uppercase(),
-            Inflection::Camel => {
-                let pascal = Inflection::apply(Inflection::Pascal, string);
-                pascal[..1].to_ascii_lowercase() + &pascal[1..]
-            }
-            Inflection::Snake => {
-                let mut s = String::new();
-
-                for (i, ch) in string.char_indices() {
-                    if ch.is_uppercase() && i != 0 {
-                        s.push('_');
-                    }
-                    s.push(ch.to_ascii_lowercase());
-                }
-
-                s
-            }
+            Inflection::Lower | Inflection::Snake => field.to_owned(),
+            Inflection::Upper | Inflection::ScreamingSnake => field.to_ascii_uppercase(),
             Inflection::Pascal => {
-                let mut s = String::with_capacity(string.len());
+                let mut s = String::with_capacity(field.len());
 
                 let mut capitalize = true;
-                for c in string.chars() {
+                for c in field.chars() {
                     if c == '_' {
                         capitalize = true;
-                        continue;
                     } else if capitalize {
                         s.push(c.to_ascii_uppercase());
                         capitalize = false;
@@ -121,10 +106,52 @@ impl Inflection {
 
                 s
             }
-            Inflection::ScreamingSnake => Self::Snake.apply(string).to_ascii_uppercase(),
-            Inflection::Kebab => Self::Snake.apply(string).replace('_', "-"),
-            Inflection::ScreamingKebab => Self::Kebab.apply(string).to_ascii_uppercase(),
+            Inflection::Camel => lowercase_first(&Inflection::Pascal.apply_to_field(field)),
+            Inflection::Kebab => field.replace('_', "-"),
+            Inflection::ScreamingKebab => Inflection::ScreamingSnake
+                .apply_to_field(field)
+                .replace('_', "-"),
         }
+    }
+
+    /// Applies the inflection to the name of an enum variant, exactly like serde's
+    /// `rename_all` does: variants are assumed to be written in `PascalCase`.
+    pub fn apply_to_variant(self, variant: &str) -> String {
+        match self {
+            Inflection::Pascal => variant.to_owned(),
+            Inflection::Lower => variant.to_ascii_lowercase(),
+            Inflection::Upper => variant.to_ascii_uppercase(),
+            Inflection::Camel => lowercase_first(variant),
+            Inflection::Snake => {
+                let mut s = String::new();
+
+                for (i, ch) in variant.char_indices() {
+                    if ch.is_uppercase() && i != 0 {
+                        s.push('_');
+                    }
+                    s.push(ch.to_ascii_lowercase());
+                }
+
+                s
+            }
+            Inflection::ScreamingSnake => Inflection::Snake
+                .apply_to_variant(variant)
+                .to_ascii_uppercase(),
+            Inflection::Kebab => Inflection::Snake
+                .apply_to_variant(variant)
+                .replace('_', "-"),
+            Inflection::ScreamingKebab => Inflection::ScreamingSnake
+                .apply_to_variant(variant)
+                .replace('_', "-"),
+        }
+    }
+}
+
+fn lowercase_first(string: &str) -> String {
+    let mut chars = string.chars();
+    match chars.next() {
+        Some(first) => first.to_ascii_lowercase().to_string() + chars.as_str(),
+        None => String::new(),
     }
 }
 
